@@ -13,7 +13,7 @@ git -C /repo worktree add -q --detach "$wt" HEAD || exit 3
 ( cd "$wt" && git apply "$patch" ) || { echo "PATCH-DOES-NOT-APPLY"; git -C /repo worktree remove --force "$wt"; exit 3; }
 # hooks that are still uncommitted in /repo (other workers' verif_export files) are needed by some harnesses
 ( cd /repo && git ls-files --others --exclude-standard | grep 'verif_export' | while read f; do mkdir -p "$wt/$(dirname $f)"; cp "$f" "$wt/$f"; done )
-rsync -a --exclude .git --exclude 'build/run' --exclude replays /verif/ "$vc/"
+rsync -a --exclude .git --exclude build/run --exclude build/cover --exclude replays /verif/ "$vc/"
 sed -i "s|=> /repo/schema|=> $wt/schema|; s|=> /repo\$|=> $wt|" "$vc/harness/go.mod"
 rc=0
 for p in "$@"; do
